@@ -351,11 +351,9 @@ mut("for_each_backpressure_off_by_one", ["C13"],
     "for_each back-pressure admits limit + 1 closure futures")
 
 mut("for_each_flush_waits_for_one", ["C13"],
-    [("src/concurrent_stream/for_each.rs", """    async fn flush(self: Pin<&mut Self>) -> Self::Output {
-        let mut this = self.project();
+    [("src/concurrent_stream/for_each.rs", """        // resolved.
         while (this.group.next().await).is_some() {}
-    }""", """    async fn flush(self: Pin<&mut Self>) -> Self::Output {
-        let mut this = self.project();
+    }""", """        // resolved.
         this.group.next().await;
     }""")],
     "for_each resolves when the first in-flight closure future completes after the source ended")
@@ -364,16 +362,15 @@ mut("for_each_count_released_at_closure_call", ["C13"],
     [("src/concurrent_stream/for_each.rs", """            this.fut_t = None;
             this.fut_b = Some(fut_b);
         }
-
-        if let Some(fut) = this.fut_b.as_mut() {
-            ready!(unsafe { Pin::new_unchecked(fut) }.poll(cx));
-            this.count.fetch_sub(1, Ordering::Relaxed);""", """            this.fut_t = None;
+""", """            this.fut_t = None;
             this.fut_b = Some(fut_b);
             this.count.fetch_sub(1, Ordering::Relaxed);
         }
-
-        if let Some(fut) = this.fut_b.as_mut() {
-            ready!(unsafe { Pin::new_unchecked(fut) }.poll(cx));""")],
+"""),
+     ("src/concurrent_stream/for_each.rs", """            ready!(unsafe { Pin::new_unchecked(fut) }.poll(cx));
+            this.count.fetch_sub(1, Ordering::Relaxed);
+            this.done = true;""", """            ready!(unsafe { Pin::new_unchecked(fut) }.poll(cx));
+            this.done = true;""")],
     "the in-flight counter is released when the closure is called, not when its future completes")
 
 mut("try_for_each_progress_drops_residual", ["C14"],
